@@ -135,6 +135,13 @@ def history(c, rec):
     trace = []
     for k, stp in enumerate(c["steps"]):
         t += 60.0
+        if k and c.get("through_object_store", True):
+            # between steps the estimate agent's filter travels through the Ray object store; what comes back is a copy whose
+            # NumPy arrays are read-only (same serialisation as the in-process double uses for every put/get)
+            from vf import raydouble
+
+            mm = raydouble._loads(raydouble._dumps(mm))
+            rec.label("filter_through_object_store")
         mm.predict(ScenarioTime(t))
         w_prior = np.asarray(mm.model_weights, dtype=float).copy()
         mu_prior = np.asarray(mm.mode_probabilities, dtype=float).copy()
